@@ -234,6 +234,22 @@ def run_case(ck: Check, case: dict):
             continue
         if not seeded or (cur is not origin and not cur.hasher.is_identity and cur.hasher is not None and not seeded):
             a, b = strip_hashes(a), strip_hashes(b)
+            if not cur.hasher.is_identity and op[0] in ("find_path_to", "mitm_to", "between", "find_path", "beam"):
+                # which of several equally short paths (middle state, start of the pair) is returned follows the hash
+                # order; an unseeded hasher differs between the two objects, so only found / length is comparable (the
+                # paths themselves are judged by C04 / C05 / C06 / C12)
+                def path_shape(o):
+                    if o is None:
+                        return None
+                    if op[0] == "beam":
+                        # a pruned beam keeps the first rows in hash order among equal scores: only an unpruned one is comparable
+                        return [o[0], o[1] if o[0] else None] if op[2] >= 10**5 else "pruned beam (not comparable)"
+                    if op[0] == "between" or (isinstance(o, list) and len(o) == 2 and isinstance(o[1], list) and o and isinstance(o[0], list)):
+                        return len(o[1])
+                    return len(o)
+
+                a, b = path_shape(a), path_shape(b)
+                ck.count("paths on an unseeded graph: found / length only")
         elif cur is not origin:
             # copy shares the ORIGIN's hasher; a fresh graph of the copy's definition with the same seed has the same hasher parameters
             pass
